@@ -22,7 +22,8 @@ MIN_DISTINCT = {"quick": 200, "thorough": 10000}
 
 def configs():
     return [(1, (("s",),), True), (1, (("s", "s"),), True), (2, (("s",), ("s",)), True), (2, (("a", "s"), ("s",)), True),
-            (2, (("s",), ("s",)), False), (3, (("s",), ("s",), ("a",)), False)]
+            (2, (("s",), ("s",)), False), (3, (("s",), ("s",), ("a",)), False),
+            (1, (("s", "s"),), "poller"), (2, (("s",), ("a", "s")), "poller")]
 
 
 def record(ctx, obs):
@@ -57,7 +58,7 @@ def run(ctx):
     rng = ctx.rng
     cfgs = configs()
     if ctx.shard[0] == 0:
-        for cfg in cfgs[:3]:
+        for cfg in [cfgs[0], cfgs[2], cfgs[6]]:
             cen = sharedconn.run_shared(cfg, 0, "scripted", census=True)
             record(ctx, cen)
             points = [(name, nth) for (name, nth, tag) in cen["census"] if name != "peer"]
